@@ -153,7 +153,7 @@ def classify(exp, got):
 def inner_texts(ctx):
     out = [('hostile', x) for x in HOSTILE_INNER]
     r = ctx.sub_rng('inner')
-    n = 500 if ctx.tier == 'quick' else 6000
+    n = 500 if ctx.tier == 'quick' else 20000
     for i in range(n):
         k = r.random()
         if k < 0.5:
